@@ -7,7 +7,7 @@ slicing arithmetic (ARM-UNIFORM / PAIR).  Added here: pointer-equality fast path
 field (a too-permissive ptr_eq lets concat/interleave keep the wrong dictionary and emit out-of-range
 keys), and RecordBatch keeps schema and columns in step."""
 import re
-from . import facts as factsmod, flow, eff, api, c09, c08, c03, arms, pairs, core
+from . import facts as factsmod, flow, eff, api, c09, c08, c03, c11, arms, pairs, core
 from .mirlib import Body, callee
 
 PTR_EQ = [
@@ -31,6 +31,9 @@ def run(ck, tier):
     r8 = core.Renamed(ck, "C08.", "C01.")
     c08.run_ipc_gating(r8, F)
     c08.run_inventory(r8, F)
+
+    # valid UTF-8 out of the row format: provenance / propagation of the validate_utf8 flag and validating decode (rules of C11)
+    c11.run(core.Renamed(ck, "C11.", "C01.row-"), tier)
 
     ck.rule("C01.ptr-eq-complete", "pointer-equality fast paths read every field of both operands (length, offset, type, buffers, children, nulls): a "
             "too-permissive ptr_eq makes dictionary merge / concat reuse the wrong dictionary", floor=len(PTR_EQ))
